@@ -19,7 +19,7 @@ if [ $ok = 1 ]; then
   suite() { for i in 1 2 3; do go test -vet=off -count=1 ./... > $WT.suite.log 2>&1 && return 0; grep -E "^--- FAIL" $WT.suite.log | grep -v "TestSubscribe" | grep -q . && return 1; done; return 1; }
   if suite; then echo "CONFIRM: existing suite passes with the change"; else echo "CONFIRM: EXISTING SUITE FAILS"; grep -E "^(FAIL|---)" $WT.suite.log | head -5; ok=0; fi
   DP=$(cat $SD/demo_path.txt | tr -d ' \n'); mkdir -p $(dirname $DP); cp $SD/seed_demo_test.go.txt $DP
-  DEMO=$(grep "go test" $SD/demo_cmd.txt | head -1 | sed 's#cd /tmp/wt3/[A-Z0-9]* *&& *##')
+  DEMO=$(grep "go test" $SD/demo_cmd.txt | head -1 | sed 's#cd /tmp/wt[0-9]*/[A-Z0-9]* *&& *##')
   echo "demo: $DEMO"
   ( eval "$DEMO" ) > $WT.demo_with.log 2>&1; w=$?
   git apply -R $SD/patch.diff
